@@ -108,11 +108,47 @@ theorem advance_last (sep text : List Char) (p : Nat) (h : p < text.length) :
   simp only [Bool.false_eq_true, ↓reduceIte]
   rw [if_neg (by omega)]
 
-theorem advance_mid (sep text : List Char) (p r : Nat) (h : p < text.length) :
+/-- the text goes on with something that is not white space -/
+def NoLeadSpace (l : List Char) : Prop := ∃ x xs, l = x :: xs ∧ isSpace x = false
+
+theorem noLead_not_all (l : List Char) (h : NoLeadSpace l) : l.all isSpace = false := by
+  obtain ⟨x, xs, e, hx⟩ := h
+  subst e
+  simp [hx]
+
+theorem strict_noLead (t rest : List Char) (v : Rat) (h : strictNumber t = some v) : NoLeadSpace (t ++ rest) := by
+  have hne := strict_ne_nil t v h
+  cases t with
+  | nil => exact absurd rfl hne
+  | cons c cs =>
+    refine ⟨c, cs ++ rest, rfl, ?_⟩
+    rcases strict_head (c :: cs) v h c rfl with e | e | e
+    · subst e; decide
+    · subst e; decide
+    · exact digit_not_space c e
+
+theorem advance_mid (sep text : List Char) (p r : Nat) (h : p < text.length)
+    (hn : NoLeadSpace (text.drop (r + 1))) :
     ({ atPos sep text p with restore := some r, patched := true } : StrIt).advance = (atPos sep text (r + 1), .more) := by
   unfold StrIt.advance atPos
   simp only [Bool.false_eq_true, ↓reduceIte]
   rw [if_neg (by omega)]
+  rw [if_neg (by intro hc; have := noLead_not_all _ hn; rw [hc.2] at this; cases this)]
+
+theorem sepJoin_noLead (pairs : List (List Char × Char)) (last : List Char) (vs : List Rat) (vl : Rat)
+    (hv : pairs.map (fun p => strictNumber p.1) = vs.map some) (hl : strictNumber last = some vl) :
+    NoLeadSpace (sepJoin pairs last) := by
+  cases pairs with
+  | nil =>
+    have := strict_noLead last [] vl hl
+    simpa [sepJoin] using this
+  | cons p more =>
+    obtain ⟨t, c⟩ := p
+    cases vs with
+    | nil => simp at hv
+    | cons v vs' =>
+      simp only [List.map_cons, List.cons.injEq] at hv
+      exact strict_noLead t _ v hv.1
 
 /-- the walk from a position inside the text: `pre` has been consumed -/
 theorem strWalk_from (pairs : List (List Char × Char)) (last : List Char) (vs : List Rat) (vl : Rat)
@@ -156,7 +192,12 @@ theorem strWalk_from (pairs : List (List Char × Char)) (last : List Char) (vs :
       simp only [Bool.not_true, Bool.false_eq_true, ↓reduceIte]
       rw [conv_mid sep pre t c _ v ht hsep]
       simp only []
-      rw [advance_mid sep _ _ _ hlt]
+      have hnl : NoLeadSpace ((pre ++ (t ++ c :: sepJoin more last)).drop (pre.length + t.length + 1)) := by
+        have e : pre ++ (t ++ c :: sepJoin more last) = (pre ++ t ++ [c]) ++ sepJoin more last := by simp
+        have l : pre.length + t.length + 1 = (pre ++ t ++ [c]).length := by simp; omega
+        rw [e, l, List.drop_left]
+        exact sepJoin_noLead more last vs' vl hv' hl
+      rw [advance_mid sep _ _ _ hlt hnl]
       simp only []
       have htxt : pre ++ (t ++ c :: sepJoin more last) = (pre ++ t ++ [c]) ++ sepJoin more last := by simp
       have hpos : pre.length + t.length + 1 = (pre ++ t ++ [c]).length := by simp; omega
